@@ -1,6 +1,7 @@
 package main
 
 import (
+	"bytes"
 	"fmt"
 	"math"
 	"reflect"
@@ -139,6 +140,14 @@ func (c *checker) policyString(e *entry, f *form, p *types.SpendPolicy, origin s
 
 func spec(s string) (x types.Specifier) { copy(x[:], s); return }
 
+func encBin(v types.EncoderTo) []byte {
+	var buf bytes.Buffer
+	e := types.NewEncoder(&buf)
+	v.EncodeTo(e)
+	e.Flush()
+	return buf.Bytes()
+}
+
 // runPolicyDirected enumerates the policy string/JSON forms over isolated
 // unusual features: every kind alone, every kind nested in a threshold in
 // every position, signature counts around 2^8/2^32/2^64, every unusual
@@ -180,6 +189,25 @@ func (c *checker) runPolicyDirected() {
 				}
 				c.roundtrip(e, &q, "directed-nested")
 			}
+		}
+	}
+	// nesting up to the deepest policy the binary codec carries (the root is depth 0, a leaf may sit at depth 32):
+	// every form that prints such a policy parses it back
+	for _, depth := range []int{4, 16, 30, 31, 32} {
+		for _, leaf := range []types.SpendPolicy{types.PolicyAbove(7), types.PolicyPublicKey(pk), {Type: types.PolicyTypeOpaque(types.Address{0xCD})}} {
+			q := leaf
+			for d := 0; d < depth; d++ {
+				q = types.PolicyThreshold(1, []types.SpendPolicy{q})
+			}
+			var back types.SpendPolicy
+			dec := types.NewBufDecoder(encBin(q))
+			back.DecodeFrom(dec)
+			if dec.Err() != nil {
+				b.Count(fmt.Sprintf("observed:depth-%d-not-carried-by-the-binary-codec", depth), 1)
+				continue
+			}
+			c.roundtrip(e, &q, fmt.Sprintf("directed-depth-%d", depth))
+			b.Count("policy_directed_deep_nestings", 1)
 		}
 	}
 	// signature counts
